@@ -1366,6 +1366,13 @@ func (vx *Vaxis) Suspend() error {
 	// 3. Confirm we have closed
 	vx.parser.Close()
 	io.WriteString(vx.console, primaryAttributes)
+	// The parser can only finish once everything it has parsed is taken
+	// off its channel. The input goroutine may be unable to do that: it
+	// could be blocked posting to a full event queue, or it could be the
+	// goroutine we are running in (signal handler, panic recovery). Drain
+	// the channel here, input arriving during shutdown is discarded
+	for range vx.parser.Next() {
+	}
 	vx.parser.WaitClose()
 
 	vx.disableModes()
@@ -1419,7 +1426,11 @@ func (vx *Vaxis) openTty(tgts []*os.File) error {
 		}()
 		for {
 			select {
-			case seq := <-vx.parser.Next():
+			case seq, ok := <-vx.parser.Next():
+				if !ok {
+					// Suspend drained the parser and took its EOF
+					return
+				}
 				switch seq := seq.(type) {
 				case ansi.EOF:
 					return
